@@ -1,0 +1,58 @@
+#ifndef OSMIUM_VERIF_HOOKS_HPP
+#define OSMIUM_VERIF_HOOKS_HPP
+
+/*
+
+Verification hooks. This header is only ever included when the library is
+compiled with -DOSMIUM_VERIF. It declares functions that are *defined by the
+verification harness* (not by the library), so the library gains no state of
+its own. Without -DOSMIUM_VERIF nothing in the library refers to this file.
+
+*/
+
+#ifdef OSMIUM_VERIF
+
+#include <cstddef>
+
+namespace osmium {
+
+    namespace verif {
+
+        /// Sites at which a schedule perturbation point is placed.
+        enum class site : int {
+            queue_push_enter = 0,
+            queue_push_exit = 1,
+            queue_pop_enter = 2,
+            queue_pop_exit = 3,
+            queue_try_pop_enter = 4,
+            queue_try_pop_exit = 5,
+            queue_shutdown_enter = 6,
+            queue_shutdown_exit = 7,
+            pool_before_task = 8,
+            pool_after_task = 9,
+            pool_submit_enter = 10,
+            pool_submit_exit = 11
+        };
+
+        /**
+         * Called between critical sections (never while a library lock is
+         * held). The harness may yield, sleep or do nothing.
+         */
+        void sched_point(site s, const void* object) noexcept;
+
+        /**
+         * Called under the queue's own mutex right after an element was
+         * added (is_push == true) or removed (is_push == false).
+         */
+        void queue_size_event(const void* queue, std::size_t size, std::size_t max_size, bool is_push) noexcept;
+
+        /// Called whenever ItemStash::garbage_collect() runs.
+        void gc_event(const void* stash) noexcept;
+
+    } // namespace verif
+
+} // namespace osmium
+
+#endif // OSMIUM_VERIF
+
+#endif // OSMIUM_VERIF_HOOKS_HPP
